@@ -30,6 +30,7 @@ import (
 	"go/constant"
 	"go/token"
 	"go/types"
+	"regexp"
 	"sort"
 	"strings"
 
@@ -42,6 +43,8 @@ type lpExt struct {
 	structs     map[*types.Named]string
 	structDefs  []string
 	structBusy  map[*types.Named]bool
+	nonNilErr   map[*types.Var]bool
+	nilSites    []string
 }
 
 func (x *lpExt) assume(id, text string) { x.assumptions[id] = text }
@@ -349,6 +352,106 @@ func (t *lpTr) isZeroLit(e ast.Expr) bool {
 	return ok && len(cl.Elts) == 0
 }
 
+// after the body is translated: external callees become leading parameters; does an error return follow a receiver write?
+func (t *lpTr) extFinish(fn *lpFunc, body []string) []string {
+	fn.exts = t.exts
+	var ps, ns []string
+	for _, e := range t.exts {
+		ps = append(ps, fmt.Sprintf("(%s : %s)", e.name, e.ty))
+		ns = append(ns, e.name)
+	}
+	fn.params = append(ps, fn.params...)
+	if len(ns) > 0 {
+		// the loop functions of this function take the external callees too (definition and every call)
+		re := regexp.MustCompile(`\b` + regexp.QuoteMeta(fn.lean) + `_loop[0-9]+\b`)
+		fix := func(text string) string {
+			lines := strings.Split(text, "\n")
+			for i, l := range lines {
+				if strings.HasPrefix(l, "def ") {
+					lines[i] = re.ReplaceAllString(l, "${0} "+strings.Join(ps, " "))
+				} else {
+					lines[i] = re.ReplaceAllString(l, "${0} "+strings.Join(ns, " "))
+				}
+			}
+			return strings.Join(lines, "\n")
+		}
+		for i := range t.loops {
+			t.loops[i] = fix(t.loops[i])
+		}
+		for i := range body {
+			body[i] = fix(body[i])
+		}
+	}
+	if len(fn.mutated) == 0 || !fn.errRes {
+		return body
+	}
+	mut := map[*types.Var]bool{}
+	for _, v := range fn.mutated {
+		mut[v] = true
+	}
+	type site struct {
+		pos   token.Pos
+		loops []ast.Node
+	}
+	var muts, rets []site
+	var walk func(n ast.Node, loops []ast.Node)
+	walk = func(n ast.Node, loops []ast.Node) {
+		ast.Inspect(n, func(x ast.Node) bool {
+			switch s := x.(type) {
+			case *ast.ForStmt, *ast.RangeStmt:
+				if x != n {
+					walk(x, append(append([]ast.Node{}, loops...), x))
+					return false
+				}
+			case *ast.AssignStmt:
+				for _, l := range s.Lhs {
+					if v := t.rootVar(l); v != nil && mut[v] && s.Tok != token.DEFINE {
+						muts = append(muts, site{s.Pos(), loops})
+					}
+				}
+			case *ast.IncDecStmt:
+				if v := t.rootVar(s.X); v != nil && mut[v] {
+					muts = append(muts, site{s.Pos(), loops})
+				}
+			case *ast.CallExpr:
+				r := map[*types.Var]bool{}
+				t.extAssignedCall(s, r)
+				if t.isCopy(s) && len(s.Args) == 2 {
+					if v := t.rootVar(s.Args[0]); v != nil {
+						r[v] = true
+					}
+				}
+				for v := range r {
+					if mut[v] {
+						muts = append(muts, site{s.Pos(), loops})
+					}
+				}
+			case *ast.ReturnStmt:
+				if len(s.Results) > 0 && !t.isNil(s.Results[len(s.Results)-1]) {
+					rets = append(rets, site{s.Pos(), loops})
+				}
+			}
+			return true
+		})
+	}
+	walk(t.fd.Body, nil)
+	for _, m := range muts {
+		for _, r := range rets {
+			if m.pos < r.pos {
+				fn.errMut = true
+			}
+			for _, a := range m.loops {
+				for _, b := range r.loops {
+					if a == b {
+						fn.errMut = true
+					}
+				}
+			}
+		}
+	}
+	return body
+}
+
 // ---- termination measures ----
 
 func (t *lpTr) extFuel(x *ast.ForStmt) (string, bool) {
@@ -404,7 +507,7 @@ var lpOptsCandidates = []struct{ recv, name string }{
 }
 
 func loopOptsFacts(pkgs []*packages.Package, b *strings.Builder) {
-	ext := &lpExt{errs: map[string]string{}, assumptions: map[string]string{}, structs: map[*types.Named]string{}, structBusy: map[*types.Named]bool{}}
+	ext := &lpExt{errs: map[string]string{}, assumptions: map[string]string{}, structs: map[*types.Named]string{}, structBusy: map[*types.Named]bool{}, nonNilErr: map[*types.Var]bool{}}
 	g := &lpGen{pkgs: map[string]*packages.Package{}, done: map[*types.Func]*lpFunc{}, refused: map[*types.Func]string{}, busy: map[*types.Func]bool{}, tables: map[*types.Var]string{}, ext: ext}
 	var root *packages.Package
 	for _, p := range pkgs {
@@ -483,6 +586,18 @@ func loopOptsFacts(pkgs []*packages.Package, b *strings.Builder) {
 		rows = append(rows, fmt.Sprintf("  (%q, %q)", k, ext.assumptions[k]))
 	}
 	b.WriteString("/-- what the translation assumes about Go (reviewed in design_notes/bF.md) -/\ndef optsAssumptions : List (String × String) := [\n" + strings.Join(rows, ",\n") + "]\n\n")
+	rows = nil
+	for _, fn := range g.order {
+		for _, e := range fn.exts {
+			rows = append(rows, fmt.Sprintf("  (%q, %q, %q, %q)", fn.lean, e.name, e.key, e.why))
+		}
+	}
+	b.WriteString("/-- untranslated callees that a generated function takes as a parameter: (generated function, parameter, Go callee, why it is not translated) -/\ndef optsExternals : List (String × String × String × String) := [\n" + strings.Join(rows, ",\n") + "]\n\n")
+	rows = nil
+	for _, s := range ext.nilSites {
+		rows = append(rows, fmt.Sprintf("  %q", s))
+	}
+	b.WriteString("/-- every `x == nil` / `x != nil` on a byte slice that was rendered as a length test (assumption nilIsEmpty) -/\ndef optsNilSites : List String := [\n" + strings.Join(rows, ",\n") + "]\n\n")
 	b.WriteString("end PV.Gen.LoopsOpts\n")
 	_ = constant.MakeBool
 }
